@@ -376,7 +376,7 @@ class PSBTView:
 
     def seek_to_value(self, key_start, from_current=False):
         """
-        Seeks to value with key starting with key_start.
+        Seeks to value with the key equal to key_start.
         Returns offset - relative if from_current=True, absolute otherwise.
         If key is not found - returns None.
         """
@@ -391,8 +391,8 @@ class PSBTView:
             # separator - not found
             if len(key) == 0:
                 return None
-            # matches
-            if key.startswith(key_start):
+            # matches (the whole key: longer keys with the same first bytes are different fields)
+            if key == key_start:
                 return off
             # continue to the next key
             off += skip_string(self.stream)
